@@ -5,14 +5,16 @@
 -/
 import DlmsVerif.Run.Crc
 import DlmsVerif.Run.Fields
+import DlmsVerif.Run.Link
 
 structure DriverState where
-  dummy : Unit := ()
+  link : Run.Link.S := {}
 
 def step (st : DriverState) (line : String) : DriverState × String :=
   match (line.trimAscii.toString.splitOn " ").filter (· ≠ "") with
   | "crc" :: rest => (st, Run.Crc.handle rest)
   | "fld" :: rest => (st, Run.Fields.handle rest)
+  | "link" :: rest => let (l, r) := Run.Link.handle st.link rest; ({ st with link := l }, r)
   | [] => (st, "bad-op")
   | _ => (st, "bad-op")
 
